@@ -24,7 +24,7 @@ LEVEL = "fault_enumeration"
 RULE = (
     "configurations = targets (1-2 dims) x schedule {adaptive, fixed n, max_n_steps, min_step, ramped target} x cadence {1,2,3} x n_final_samples "
     "{None, larger} x preconditioning {none, default, affine, bounded, periodic} x {MiniPCNSMC (numpy/torch/jax), BlackJAXSMC}; for each, a crash "
-    "is injected at every likelihood call index of the reference run; each distinct surviving checkpoint is resumed by 4 routes. non-trivial = "
+    "is injected at every likelihood call index of the reference run; each distinct surviving checkpoint is resumed by 4 routes; on the dictionary, path and constructor routes the continuation is then interrupted itself and continued once more from the same source. non-trivial = "
     "crash point after >=1 checkpoint and before the end; distinct = distinct (configuration signature, crash index)"
 )
 ASSUMPTIONS = [
